@@ -276,13 +276,13 @@ fn peer_begin(remote_channel: u16) -> Performative {
         properties: None,
     })
 }
-fn peer_attach(name: &str, role: Role, mms: Option<u64>) -> Performative {
+fn peer_attach(name: &str, role: Role, mms: Option<u64>, rsm2: bool) -> Performative {
     Performative::Attach(Attach {
         name: name.into(),
         handle: PEER_HANDLE.into(),
         role: role.clone(),
         snd_settle_mode: SenderSettleMode::Mixed,
-        rcv_settle_mode: ReceiverSettleMode::First,
+        rcv_settle_mode: if rsm2 { ReceiverSettleMode::Second } else { ReceiverSettleMode::First },
         source: Some(Box::new(Source::builder().address("q").build())),
         target: Some(Box::new(Target::builder().address("q").build().into())),
         unsettled: None,
@@ -302,10 +302,16 @@ struct Knobs {
     sb: Option<usize>,
     pipe: usize,
     pauses: Vec<(u64, u64)>,
+    /// rcv-settle-mode second (optional key `rsm=2`): the peer's outcome is not settled, the sender settles
+    rsm2: bool,
+    /// capacity of the session->link channel of the receiving link (optional key `lb=<n>`)
+    lb: Option<usize>,
 }
 
 fn knobs(hw: &[&str]) -> Knobs {
     Knobs {
+        rsm2: hw.iter().any(|x| *x == "rsm=2"),
+        lb: hw.iter().find_map(|x| x.strip_prefix("lb=")).and_then(|x| x.parse().ok()),
         mfs: field(hw, "mfs").parse().unwrap(),
         cb: cap(field(hw, "cb")),
         sb: cap(field(hw, "sb")),
@@ -351,7 +357,7 @@ impl Base {
                 Performative::Attach(a) => {
                     self.ep_handle = Some(a.handle.0);
                     self.attached = true;
-                    self.pipe.queue(&frame_bytes(0, &peer_attach(&a.name, peer_role, mms), &[]));
+                    self.pipe.queue(&frame_bytes(0, &peer_attach(&a.name, peer_role, mms, k.rsm2), &[]));
                     Some((Performative::Attach(a), payload))
                 }
                 Performative::Detach(d) => {
@@ -478,6 +484,9 @@ pub fn run_tx(line: &str) -> String {
     let hw: Vec<&str> = hd.split_whitespace().collect();
     let kn = knobs(&hw);
     let settled_mode = field(&hw, "ssm") == "s";
+    // ssm=m: snd-settle-mode mixed; pre=1: every message is sent pre-settled (`Sendable::settled(true)`)
+    let mixed_mode = field(&hw, "ssm") == "m";
+    let presettle = hw.iter().any(|x| *x == "pre=1");
     let mms: Option<u64> = match field(&hw, "mms") {
         "-" => None,
         v => Some(v.parse().unwrap()),
@@ -511,7 +520,14 @@ pub fn run_tx(line: &str) -> String {
             let sender = Sender::builder()
                 .name("s")
                 .target("q")
-                .sender_settle_mode(if settled_mode { SenderSettleMode::Settled } else { SenderSettleMode::Unsettled })
+                .sender_settle_mode(if settled_mode {
+                    SenderSettleMode::Settled
+                } else if mixed_mode {
+                    SenderSettleMode::Mixed
+                } else {
+                    SenderSettleMode::Unsettled
+                })
+                .receiver_settle_mode(if kn2.rsm2 { ReceiverSettleMode::Second } else { ReceiverSettleMode::First })
                 .attach(&mut session)
                 .await
                 .map_err(|e| format!("attach {:?}", e))?;
@@ -589,7 +605,12 @@ pub fn run_tx(line: &str) -> String {
                 };
                 for k in ks {
                     let msg = message_of(seq, size);
-                    let r = CancelAfter::new(sender.send(msg), k).await;
+                    let sendable = if presettle {
+                        fe2o3_amqp::Sendable::builder().message(msg).settled(true).build()
+                    } else {
+                        fe2o3_amqp::Sendable::builder().message(msg).build()
+                    };
+                    let r = CancelAfter::new(sender.send(sendable), k).await;
                     let (res, polls, done) = match r {
                         Ca::Done(Ok(o), p) => (
                             format!(
@@ -628,6 +649,8 @@ pub fn run_tx(line: &str) -> String {
         let mut frames_log: Vec<String> = Vec::new();
         let mut interleaved: Vec<String> = Vec::new();
         let mut due: Vec<(u64, u32)> = Vec::new();
+        let mut awaiting_settle: Vec<u32> = Vec::new(); // mode second: outcome sent, the sender's settlement not yet seen
+        let mut settled_count: u32 = 0; // mode second with a window: deliveries the sender has settled (or sent settled)
         let mut late_done = false;
         let mut idle = 0u32;
         let mut app_done_at: Option<u64> = None;
@@ -638,6 +661,21 @@ pub fn run_tx(line: &str) -> String {
             if reading {
                 for w in base.pipe.read_now() {
                     if let Some((perf, payload)) = base.on_wire(w, &kn, Role::Receiver, mms) {
+                        if let Performative::Disposition(d) = &perf {
+                            // mode second: the sender settles what we have given an outcome for
+                            if d.settled && matches!(d.role, Role::Sender) {
+                                let last = d.last.unwrap_or(d.first);
+                                let before = awaiting_settle.len();
+                                awaiting_settle.retain(|x| !(d.first <= *x && *x <= last));
+                                let done = before - awaiting_settle.len();
+                                if done > 0 {
+                                    if let Credit::Win(w) = cr {
+                                        settled_count = settled_count.wrapping_add(done as u32);
+                                        base.pipe.queue(&frame_bytes(0, &flow(base.nii, settled_count, w), &[]));
+                                    }
+                                }
+                            }
+                        }
                         if let Performative::Transfer(tr) = perf {
                             base.nii = base.nii.wrapping_add(1);
                             let tagv: Option<Vec<u8>> = tr.delivery_tag.as_ref().map(|t| t.to_vec());
@@ -685,7 +723,12 @@ pub fn run_tx(line: &str) -> String {
                                     }
                                     dels.push(Del { did: c.did, tag: c.tag, frames: c.frames, len: c.payload.len(), hash: fnv(&c.payload), status: 'c', settled: c.settled });
                                     if let Credit::Win(w) = cr {
-                                        base.pipe.queue(&frame_bytes(0, &flow(base.nii, dc, w), &[]));
+                                        // mode second: the window moves on when the sender has settled (see above)
+                                        let waits = kn.rsm2 && !dels.last().map(|d| d.settled).unwrap_or(true);
+                                        if !waits {
+                                            settled_count = settled_count.wrapping_add(1);
+                                            base.pipe.queue(&frame_bytes(0, &flow(base.nii, if kn.rsm2 { settled_count } else { dc }, w), &[]));
+                                        }
                                     }
                                 }
                             }
@@ -704,7 +747,10 @@ pub fn run_tx(line: &str) -> String {
             while k < due.len() {
                 if due[k].0 <= t {
                     let (_, d) = due.remove(k);
-                    let disp = Disposition { role: Role::Receiver, first: d, last: None, settled: true, state: Some(DeliveryState::Accepted(Accepted {})), batchable: false };
+                    if kn.rsm2 {
+                        awaiting_settle.push(d);
+                    }
+                    let disp = Disposition { role: Role::Receiver, first: d, last: None, settled: !kn.rsm2, state: Some(DeliveryState::Accepted(Accepted {})), batchable: false };
                     base.pipe.queue(&frame_bytes(0, &Performative::Disposition(disp), &[]));
                 } else {
                     k += 1;
@@ -780,7 +826,7 @@ pub fn run_tx(line: &str) -> String {
             .map(|d| format!("{},{},{},{},{:016x},{},{}", opt_u32(d.did), tag_show(&d.tag), d.frames, d.len, d.hash, d.status, if d.settled { 's' } else { 'u' }))
             .collect();
         format!(
-            "S: {} | W: {} | X: {} | F: {} | E: conn={} app={} granted={} close={} events={}{}",
+            "S: {} | W: {} | X: {} | F: {} | E: conn={} app={} granted={} close={} unsettled={} events={}{}",
             sends.join(" ; "),
             wire.join(" ; "),
             interleaved.join(","),
@@ -789,6 +835,7 @@ pub fn run_tx(line: &str) -> String {
             if app_finished { "done" } else { "PENDING" },
             granted,
             close,
+            if awaiting_settle.is_empty() { "-".to_string() } else { awaiting_settle.iter().map(|x| x.to_string()).collect::<Vec<_>>().join("+") },
             base.link_events.join(","),
             if panic { " PANIC" } else { "" }
         )
@@ -956,6 +1003,49 @@ pub fn oracle_tx(line: &str, trace: &str) -> Vec<String> {
     if endpoint_error {
         v.push(format!("c16-link-unusable: the endpoint ended the link/session/connection with an error: {}", events));
     }
+    // ---- a message sent pre-settled completes as accepted without waiting for anything (C02) ----
+    // (in snd-settle-mode unsettled the link sends everything unsettled, whatever the message asks for: nothing to check)
+    if hw.iter().any(|x| *x == "pre=1") && field(&hw, "ssm") != "u" && conn_up && !endpoint_error {
+        for sd in sends.iter().filter(|s| s.k == "inf") {
+            if sd.res != "ok:A" {
+                v.push(format!("c02-presettled-send-waits: call #{} sent its message pre-settled (settled=true) and was never dropped, yet it returned {} instead of completing as accepted", sd.seq, sd.res));
+            }
+        }
+        if wire.iter().any(|w| w.status == "c" && !trace.contains(".s1.")) {
+            v.push("c02-presettled-not-on-wire: a message sent with settled=true went out unsettled".to_string());
+        }
+    }
+    // ---- scripts without any cancellation: the plain contract of the sending link (C08, C11) ----
+    if sends.iter().all(|s| s.k == "inf") && conn_up && !endpoint_error {
+        // a delivery that the link cuts into several transfers (max-message-size) is one delivery: the later
+        // transfers carry no new delivery-id / tag, nothing interleaves, and it is finished
+        if !x.is_empty() || wire.iter().any(|w| w.status == "p") {
+            v.push(format!(
+                "c11-split-delivery-broken: no call was cancelled, yet the transfers of one message do not form one delivery (interleaved: [{}], unfinished: {})",
+                x,
+                wire.iter().filter(|w| w.status == "p").count()
+            ));
+        }
+        // one credit per delivery, however many transfers carry it: the tags (= delivery-count when the credit was
+        // taken) of the deliveries begun are 0, 1, 2, ...
+        let tags: Vec<u64> = wire.iter().filter_map(|w| w.tag.parse::<u64>().ok()).collect();
+        if tags.iter().enumerate().any(|(i, t)| *t != i as u64) {
+            v.push(format!("c08-credit-not-per-delivery: the deliveries begun carry the tags {:?}: delivery-count did not advance by one per delivery", tags));
+        }
+        if sends.iter().any(|s| s.res == "stall") && granted >= sends.len() as u64 {
+            v.push(format!(
+                "c08-credit-not-per-delivery: a send() is still pending although {} credits were granted for {} deliveries and the peer reads everything",
+                granted,
+                sends.len()
+            ));
+        }
+    }
+    // mode second: every outcome the peer has given must be settled by the sender, whether or not the send() that
+    // produced the delivery is still waiting for it
+    let unsettled = field(&ew, "unsettled");
+    if conn_up && !unsettled.is_empty() && unsettled != "-" {
+        v.push(format!("c16-send-never-settled: rcv-settle-mode second: the peer's outcome for deliveries {} was never settled by the sender (a receiver that counts on the settlement stops granting credit)", unsettled));
+    }
     // a partial delivery never completes, so a receiver that renews its window per delivery stops granting: the
     // starvation that follows has the partial delivery as its cause
     if wire.iter().any(|w| w.status == "p") {
@@ -1003,7 +1093,11 @@ pub fn run_rx(line: &str) -> String {
             }
             let mut session = sbld.begin(&mut conn).await.map_err(|e| format!("begin {:?}", e))?;
             let mode = if let Some(n) = cm2.strip_prefix("auto:") { CreditMode::Auto(n.parse().unwrap()) } else { CreditMode::Manual };
-            let receiver = Receiver::builder().name("r").source("q").credit_mode(mode).auto_accept(auto_accept).attach(&mut session).await.map_err(|e| format!("attach {:?}", e))?;
+            let mut rb = Receiver::builder().name("r").source("q").credit_mode(mode).auto_accept(auto_accept);
+            if let Some(n) = kn2.lb {
+                rb.buffer_size = n;
+            }
+            let receiver = rb.attach(&mut session).await.map_err(|e| format!("attach {:?}", e))?;
             Ok::<_, String>((conn, session, receiver))
         });
         // peer-side link state
@@ -1491,6 +1585,7 @@ pub fn gen_tx(r: &mut Rng, thorough: bool) -> String {
         *r.pick(&[0u64, 0, 1, 3, 10]),
         ops.join(" ; ")
     )
+    .replacen(" ssm=u ", if r.below(3) == 0 { " ssm=u rsm=2 " } else { " ssm=u " }, 1)
 }
 
 pub fn gen_rx(r: &mut Rng, _thorough: bool) -> String {
@@ -1543,6 +1638,7 @@ pub fn gen_rx(r: &mut Rng, _thorough: bool) -> String {
         k,
         msgs.join(" ; ")
     )
+    .replacen(" pipe=", &format!("{} pipe=", match r.below(4) { 0 => " lb=1", 1 => " lb=2", _ => "" }), 1)
 }
 
 pub fn gen_case(r: &mut Rng, thorough: bool) -> String {
@@ -1729,6 +1825,22 @@ pub fn run(seed: u64, n: u64, thorough: bool, corpus: &[String], dir: &str) {
     for l in KNOWN {
         out.count("known_cases");
         one(&mut out, l);
+    }
+    // no cancellation at all: messages the link cuts into 1..6 transfers (max-message-size), with exactly one credit per message
+    for mms in ["-", "100", "200", "32"] {
+        for ssm in ["u", "s"] {
+            for cr in ["up:3", "win:1"] {
+                out.count("plain_cases");
+                one(&mut out, &format!("txc tx mfs=1024 cb=d sb=d pipe=512 ssm={} mms={} cr={} pause=- sd=0 | 300:inf ; 10:inf ; 500:inf", ssm, mms, cr));
+            }
+        }
+    }
+    // pre-settled sends on a mixed-mode link (and on the other two modes)
+    for ssm in ["m", "u", "s"] {
+        for cr in ["up:3", "win:1"] {
+            out.count("presettled_cases");
+            one(&mut out, &format!("txc tx mfs=1024 cb=d sb=d pipe=512 ssm={} pre=1 mms=- cr={} pause=- sd=2 | 10:inf ; 300:inf ; 10:inf", ssm, cr));
+        }
     }
     // a third of the budget for each systematic sweep, the rest random
     let n = n as usize;
